@@ -1,6 +1,6 @@
 CONSTANT Mode = "all"
-CONSTANT PairAlphabet = "sub"
-CONSTANT PairStates = "tiny"
+CONSTANT PairAlphabet = "all"
+CONSTANT PairStates = "cover"
 SPECIFICATION MCSpec
 INVARIANT Agree
 INVARIANT Emit
